@@ -5,6 +5,7 @@ import (
 	"go/types"
 	"math"
 	"sort"
+	"strconv"
 	"strings"
 
 	"golang.org/x/tools/go/ssa"
@@ -226,6 +227,18 @@ func strEq(a, b Str) (Bool, bool) {
 			if same {
 				return Bool{C: true}, false
 			}
+		}
+		// the text of a JSON number never equals text that is not a number literal
+		isNumTok := func(x Str) bool { return len(x.Segs) == 1 && strings.HasPrefix(x.Segs[0].Q, "jsonnum(") }
+		notNumber := func(x Str) bool {
+			if !x.IsConc() {
+				return false
+			}
+			_, err := strconv.ParseFloat(x.C, 64)
+			return err != nil
+		}
+		if (isNumTok(a) && notNumber(b)) || (isNumTok(b) && notNumber(a)) {
+			return Bool{C: false}, false
 		}
 		return Bool{}, true
 	}
